@@ -226,6 +226,53 @@ fn main() {
             row!("ArcStr", "str", Arc<str>);
             row!("ArcDyn", "dyn Debug", Arc<dyn std::fmt::Debug>);
             row!("ArcDyn", "dyn Probe", Arc<dyn payload::Probe>);
+            // which handle types can be duplicated (compile-time facts, probed through method resolution: the inherent
+            // method is chosen when the bound holds, the trait's default otherwise)
+            struct Probe<T: ?Sized>(std::marker::PhantomData<T>);
+            trait Fallback {
+                fn is_clone(&self) -> bool {
+                    false
+                }
+                fn is_copy(&self) -> bool {
+                    false
+                }
+            }
+            impl<T: ?Sized> Fallback for Probe<T> {}
+            #[allow(dead_code)]
+            impl<T: Clone> Probe<T> {
+                fn is_clone(&self) -> bool {
+                    true
+                }
+            }
+            macro_rules! dup {
+                ($kind:expr, $t:ty) => {{
+                    #[allow(dead_code)]
+                    struct C<T>(std::marker::PhantomData<T>);
+                    trait FbCopy {
+                        fn is_copy(&self) -> bool {
+                            false
+                        }
+                    }
+                    impl<T> FbCopy for C<T> {}
+                    #[allow(dead_code)]
+                    impl<T: Copy> C<T> {
+                        fn is_copy(&self) -> bool {
+                            true
+                        }
+                    }
+                    rows.push(json!({"kind": $kind, "fact": "duplicable", "clone": Probe::<$t>(std::marker::PhantomData).is_clone(),
+                                     "copy": C::<$t>(std::marker::PhantomData).is_copy()}));
+                }};
+            }
+            dup!("Arc", Arc<String>);
+            dup!("Off", OffsetArc<String>);
+            dup!("Uni", ArcUnion<String, u8>);
+            dup!("Dyn", Arc<dyn std::fmt::Debug>);
+            dup!("Thin", ThinArc<u8, u8>);
+            dup!("Unq", UniqueArc<String>);
+            dup!("UnqDyn", UniqueArc<dyn std::fmt::Debug>);
+            dup!("UnqSl", UniqueArc<[u8]>);
+            dup!("Bor", ArcBorrow<'static, String>);
             std::fs::write(&args[1], serde_json::to_string(&rows).unwrap()).unwrap();
         }
         "compare" => {
